@@ -22,6 +22,7 @@ func SimpleStmts() []*Node {
 		Ex(T_("`t`")),
 		Ex(Po("++", I("a"))),
 		Ex(Bi("+", I("a"), I("b"))),
+		Ex(As("+=", I("x"), I("b"))),
 	}
 }
 
